@@ -24,6 +24,23 @@ ASSUMPTIONS = [
 ]
 
 
+def straight(rep: Report) -> None:
+    """Design level: next() only - exactly loops x N frames, numbered in order, then stopped for
+    good; an infinite iteration never stops (MC_RenderIterStraight.tla).  The same histories are
+    run on the real iterator by iter_traces.straight_scripts()."""
+    from .. import tlc
+
+    for cfg in ("MC_RenderIterStraight.cfg", "MC_RenderIterStraight_indef.cfg"):
+        res = tlc.run("MC_RenderIterStraight", cfg, workers=2, timeout=300, deadlock=False)
+        rep.add_tlc(res)
+        if res.violated:
+            rep.violation(f"design:RenderIterStraight:{res.violated}",
+                          f"{cfg} violates {res.violated}:\n{res.error_text[:1200]}",
+                          {"kind": "design", "cfg": cfg})
+        elif res.distinct < 10:
+            raise tlc.MachineryError(f"vacuous straight-iteration model ({cfg}): {res.distinct} states")
+
+
 def main(rep: Report, replay: dict | None, which=("A", "C", "B"), pair=False) -> None:
     from ..env import stubs
 
@@ -50,6 +67,8 @@ def main(rep: Report, replay: dict | None, which=("A", "C", "B"), pair=False) ->
         g = iter_replay.model_check(rep, name, d)
         if g is not None:
             iter_replay.replay(rep, name, g, pair=pair and name == "B")
+    if which == ("A", "C", "B"):
+        straight(rep)
     iter_traces.run(rep, n_traces=1500 if rep.tier == "quick" else 20000, pair=pair)
     if which == ("A", "C", "B"):  # C08 proper: also the renderable's own seek/tell/frame_count
         from .. import seek_replay
